@@ -64,6 +64,7 @@ def run_check(pid, prop, tier, seed):
         if rows:
             S.run([r[2] for r in rows], expect=[None if r[0] == "any" else r[0] for r in rows], label=["corpus:" + r[1] for r in rows])
     stats = prop.generate(S, tier) or {}
+    broken += getattr(S, "broken", [])
     # ---- 4. model on the same cases
     model = S.run_model()
     disagreements = []; sweep_fail = []; seen = set(); nontrivial = set()
